@@ -2,8 +2,8 @@
 SPECIFICATION SpecM
 VIEW View
 CHECK_DEADLOCK FALSE
-CONSTANTS TFs = {3,15} TradeTF = 3 Warm = 15 N = 20 MaxFills = 2 Fast = TRUE Chunk = 3
-QStale = FALSE QEmptyRead = FALSE QPartialChunk = FALSE Export = FALSE
+CONSTANTS TFs = {3,15} TradeTF = 3 Warm = 15 N = 20 MaxFills = 2 Fast = TRUE
+QStale = FALSE QEmptyRead = FALSE QPartialChunk = FALSE QChunkTrading = FALSE Export = FALSE
 INVARIANT NoReadError
 INVARIANT RowsAreAggregations
 INVARIANT CurrentIsAggregation
